@@ -100,6 +100,18 @@ CLAIMED = {
         "equality on the vocabulary), not proved; integers beyond 2^53 as beat units are outside the explored domain. Two defects "
         "repaired by fix: commits (4362669, c717ce2).",
    design="§4 C09"),
+ "C10": dict(
+   text="Lean theorems for every valid name (any accidentals) and every octave: int_spec (12*octave + natural + sharps - flats), "
+        "fromInt_roundtrip (every integer), text_roundtrip ('Name-octave' with the model's own decimal printer, parse o show = "
+        "id by induction), comparisons (all six operators = integer comparison), helmholtz_roundtrip (any accidental string, any "
+        "octave >= 0, by induction over the scanner), velocity/channel bounds, malformed names, copy, change_octave floor. Hz "
+        "clauses over the reals with Mathlib (octave_doubles, a4_is_standard, hz_roundtrip for |cents| <= 40 with a 0.1-semitone "
+        "margin to the rounding boundary). Tie A: defaults, bounds, the source text of the Hz formulas; Tie B: names x octaves, "
+        "100x100 comparison pairs, bounds sweep, 128 notes x 4 pitches x detunes through the real float code.",
+   note=TRUST + "Partial: IEEE rounding and libm log/pow in to_hertz/from_hertz are not modelled; the float code is tied to the "
+        "real-number theorem by the exhaustive harness run only. Copy *independence* is an aliasing fact tied by mutate-and-"
+        "compare (C15 owns the heap model). One defect repaired by a fix: commit (b391377).",
+   design="§4 C10"),
  "C04": dict(
    text="Whole-table kernel evaluation (decide +kernel) of everything the statement says about each of the 30 keys, the 15 "
         "relative couples, the key objects and signature<->key inversion; unbounded theorems for rejections (any string, any "
